@@ -1,23 +1,30 @@
 """C16 - generated leaf certificates are valid for the identity the client asked for (identity provenance + builder obligations).
 
+Both rules are decided by *interpreting* the repository's AST (pyint) against a recording model of ``cryptography.x509`` - never by
+reading the shape of the functions: locals may be renamed, branches inverted, helpers extracted / inlined / renamed, statements
+reordered, logging / assertions / annotations added; what is compared is the certificate that comes out.
+
 Decided:
-  R16.1 provenance in ``TlsConfig.get_cert``: on every path each element added to ``altnames`` is ``_ip_or_dns_name(<source>)`` with source in
-        {``upstream_cert.cn`` (only on paths where the ``upstream_cert`` option test succeeded), ``conn_context.client.sni`` (when set) /
-        ``conn_context.client.sockname[0]`` (when not), ``conn_context.server.address[0]`` (when set)} or ``extend(upstream_cert.altnames)``
-        under the same option, ``upstream_cert`` being ``conn_context.server.certificate_list[0]``; the SNI (else the local address) is added
-        on *every* path; the only rebinding of the list is the order-preserving de-duplication; ``cn`` evaluates to the first altname's value
-        (None for an empty list); ``certstore.get_cert(cn, altnames, ...)`` receives exactly these; ``_ip_or_dns_name`` maps IP literals to
-        ``x509.IPAddress`` and everything else to ``x509.DNSName`` of the IDNA-encoded name; ``tls_start_client`` presents exactly the
-        certificate and key of that store entry.
-  R16.2 ``certs.dummy_cert`` builder obligations on every path (each builder call's result is kept): issuer = ``cacert.subject``;
-        ExtendedKeyUsage contains SERVER_AUTH; ``not_valid_before < now < not_valid_after`` when evaluated with the module's
-        ``CERT_VALIDITY_OFFSET`` / ``CERT_EXPIRY`` constants; SubjectAlternativeName built from the ``sans`` argument is always added and is
-        critical whenever the subject ends up empty; no common name longer than 64 characters is put into the subject (both decided by
-        *interpreting* dummy_cert's AST (pyint) against a recording model of the cryptography builder in 48 worlds: commonname None / short /
-        63 / 64 / 65 / 300 characters x organization x crl_url x issuer with/without SKI - the subject that is really built is compared with
-        the criticality that is really passed, however either is computed; the path reading is only the fall-back); the
-        AuthorityKeyIdentifier comes from the issuer's SubjectKeyIdentifier with the public-key fallback; a random serial number is set; the
-        certificate is signed with the ``privkey`` argument, which ``CertStore.get_cert`` binds to the store's CA key next to the CA certificate.
+  R16.1 ``TlsConfig.get_cert(conn_context)`` is interpreted end to end (through ``CertStore.get_cert`` and ``dummy_cert``, with a
+        store that has no matching entry) in every world  upstream_cert option on/off  x  server certificate list (none / three
+        different leaf certificates, each followed by an intermediate)  x  SNI (none with IPv4 / IPv6 local address, DNS names, an
+        internationalised name, an IP literal, a name below an upstream wildcard, a name the upstream certificate also carries)  x
+        server address (none / DNS name / IP literal / the SNI host) - 256 worlds in the thorough tier, a 112-world sub-grid in the quick
+        tier (full SNI x address grid without / with the first upstream certificate).  For the certificate that is issued:
+        every subjectAltName is one of {SNI, else local address; server address host; first server certificate's CN and SANs - only
+        with the option on} (nothing from ``server.sni``, the intermediate, ...); each is of the matching GeneralName type (IP literal ->
+        IPAddress(ip_address), otherwise DNSName of the IDNA A-label); the SNI (else the local address) is among them in *every* world;
+        the list is a value-independent, first-occurrence-preserving de-duplication of the names as added; the subject CN is the first
+        SAN's value; the returned store entry carries the CA-signed certificate and the store's key; ``tls_start_client`` presents
+        exactly the certificate and key of ``self.get_cert(tls_start.context)`` (local aliases resolved).
+  R16.2 ``certs.dummy_cert`` is interpreted in 48 worlds (commonname None / short / 63 / 64 / 65 / 300 characters x organization x
+        crl_url x issuer with/without SubjectKeyIdentifier); on the certificate that is really built: issuer = ``cacert.subject``;
+        ExtendedKeyUsage contains SERVER_AUTH; ``not_valid_before < now < not_valid_after`` (not back-dated by more than 30 days) with the
+        module's real timedelta constants; SubjectAlternativeName = the ``sans`` argument, critical whenever the subject that was really
+        built is empty; no common name longer than 64 characters; AuthorityKeyIdentifier from the issuer's SubjectKeyIdentifier with the
+        public-key fallback; a fresh random serial number; signed with the ``privkey`` argument and returned wrapped in ``Cert``.
+        ``CertStore.get_cert`` (interpreted, store miss) issues for exactly (commonname, sans, organization) under the store's CA
+        certificate and key, and the entry carries that key.
 Not decided: acceptance by a strict X.509 verifier for concrete names (value level; library behaviour of ``cryptography``).
 """
 
@@ -27,27 +34,16 @@ import ast
 
 from ..core import AnalysisError
 from ..core import norm
-from ..model import attr_chain
-from ..model import call_name
 from ..model import calls_in
-from ..model import last_attr
-from ..model import walk_in_order
-from ..paths import index_of
-from ..paths import traces_of
 from ..selftest import Mutant
-from ._helpers_B import ceval
-from ._helpers_B import consistent
-from ._helpers_B import FlowSpec
 from ._helpers_B import local_defs
-from ._helpers_B import mentions
-from ._helpers_B import NotAnAtom
 
 PROP = "C16"
 REG = {
     "strength": "narrow",
-    "technique": "provenance of every element of the SAN list on all paths (control-dependent sources), semantic evaluation of the CN selection, "
-    "AST interpretation of dummy_cert against a recording model of the x509 builder (subject vs. SAN criticality, CN length) "
-    "and of validity arithmetic with the module constants, builder-call obligations on all paths of dummy_cert",
+    "technique": "AST interpretation (pyint) of TlsConfig.get_cert -> CertStore.get_cert -> dummy_cert against a recording model of the x509 "
+    "builder over a finite world table (option x upstream certificates x SNI forms x server address; CN lengths x organization x CRL x "
+    "issuer SKI): provenance, type and order of every SAN, CN selection, and all builder obligations are read off the certificate that is built",
     "claim": "the names of a generated certificate come only from SNI / local address / server address / upstream certificate (option-gated), "
     "the SNI or local address is always among them, and dummy_cert always sets issuer, serverAuth EKU, a validity window containing now, the SAN "
     "extension (critical when the subject is empty), AKI from the issuer and signs with the CA key.",
@@ -56,207 +52,163 @@ REG = {
 T = "mitmproxy/addons/tlsconfig.py"
 F = "mitmproxy/certs.py"
 
-CC = "conn_context"
-SRC_SNI, SRC_SOCK, SRC_ADDR, SRC_UCN, SRC_UALT = f"{CC}.client.sni", f"{CC}.client.sockname[0]", f"{CC}.server.address[0]", "upstream_cert.cn", "upstream_cert.altnames"
-OPT = "ctx.options.upstream_cert"
+
+# ---- trusted model of the libraries ---------------------------------------------------------------
 
 
-def _r16_1(ctx):
-    gc = ctx.func(T, "TlsConfig.get_cert")
-    where = (T, "TlsConfig.get_cert", gc)
-    ctx.require([a.arg for a in gc.args.args] == ["self", CC], "TlsConfig.get_cert signature changed")
-    ud = local_defs(gc, "upstream_cert")
-    ctx.require(len(ud) == 1 and norm(ud[0]) == f"{CC}.server.certificate_list[0]", "get_cert: upstream_cert is no longer conn_context.server.certificate_list[0]")
+class _Tok:
+    """an opaque library object (key, hash algorithm ...) with a readable name"""
 
-    def keep(ev):
-        if ev[0] == "callx":
-            return ev[1].startswith("altnames.") or ev[1] == "self.certstore.get_cert"
-        if ev[0] == "assignx":
-            return ev[1] in ("altnames", "cn")
-        if ev[0] == "cond":
-            return ev[1] in (OPT, f"{CC}.client.sni", f"{CC}.server.address", f"{CC}.server.certificate_list", "upstream_cert.cn")
-        return ev[0] == "ret"
+    def __init__(self, name):
+        self.name = name
 
-    res, eng = traces_of(gc, FlowSpec(keep=keep, call_nodes=True, assign_nodes=True, ret_nodes=True))
-    term = [(t, how) for t, how, st in res if how == "return"]
-    ctx.require(term, "get_cert: no returning path")
-    ctx.paths += len(term)
-    bad = {"source": [], "identity": 0, "rebind": 0, "sink": 0}
-    sources_seen = set()
-    cn_exprs = {}
-    for t, how in term:
-        def taken(text):
-            v = [e[2] for e in t if e[0] == "cond" and e[1] == text]
-            return v[-1] if v else None
-
-        opt_on = taken(OPT) is True and taken(f"{CC}.server.certificate_list") is True
-        have_identity = False
-        for e in t:
-            if e[0] == "callx" and e[1].startswith("altnames."):
-                meth = e[1].split(".", 1)[1]
-                n = e[2]
-                ok = False
-                if meth == "append" and len(n.args) == 1 and isinstance(n.args[0], ast.Call) and call_name(n.args[0]) == "_ip_or_dns_name" and len(n.args[0].args) == 1:
-                    src = norm(n.args[0].args[0])
-                    sources_seen.add(src)
-                    if src == SRC_UCN:
-                        ok = opt_on
-                    elif src == SRC_SNI:
-                        ok = taken(SRC_SNI) is True
-                        have_identity |= ok
-                    elif src == SRC_SOCK:
-                        ok = taken(SRC_SNI) is False
-                        have_identity |= ok
-                    elif src == SRC_ADDR:
-                        ok = taken(f"{CC}.server.address") is True
-                elif meth == "extend" and len(n.args) == 1 and norm(n.args[0]) == SRC_UALT:
-                    sources_seen.add(SRC_UALT)
-                    ok = opt_on
-                if not ok:
-                    bad["source"].append(norm(n))
-            elif e[0] == "assignx" and e[1] == "altnames":
-                v = norm(e[2])
-                if v not in ("[]", "list(dict.fromkeys(altnames))"):
-                    bad["rebind"] += 1
-            elif e[0] == "assignx" and e[1] == "cn":
-                cn_exprs[id(e[2])] = e[2]
-        if not have_identity:
-            bad["identity"] += 1
-        sink = [e[2] for e in t if e[0] == "callx" and e[1] == "self.certstore.get_cert"]
-        ret = [e[1] for e in t if e[0] == "ret"]
-        ok = len(sink) == 1 and len(ret) == 1 and ret[0] is sink[0] and [norm(a) for a in sink[0].args[:2]] == ["cn", "altnames"] and not sink[0].keywords
-        # nothing is added after cn was chosen
-        i_cn = index_of(t, lambda e: e[0] == "assignx" and e[1] == "cn")
-        ok = ok and i_cn >= 0 and not any(e[0] in ("callx", "assignx") and (e[1].startswith("altnames.") or e[1] == "altnames") for e in t[i_cn + 1 :])
-        if not ok:
-            bad["sink"] += 1
-    ctx.require({SRC_SNI, SRC_SOCK, SRC_ADDR} <= sources_seen or bad["source"], f"get_cert: expected identity sources not found: {sorted(sources_seen)}")
-    ctx.check(not bad["source"], "R16.1", where, "altnames sources", "a name enters the certificate that is not (option-gated) upstream cn/altnames, SNI, local address or server address, "
-              f"or bypasses _ip_or_dns_name: {sorted(set(bad['source']))[:3]}", desc=f"all altnames sources allowed and control-dependent: {sorted(sources_seen)}", constructs=sorted(set(bad["source"])))
-    ctx.check(bad["identity"] == 0, "R16.1", where, "SNI (else local address) always among the altnames", f"{bad['identity']} path(s) build a certificate that does not name the identity the client asked for", desc="SNI / local address added on every path")
-    ctx.check(bad["rebind"] == 0, "R16.1", where, "altnames only rebound by order-preserving de-duplication", f"{bad['rebind']} path(s) rebind altnames to something else", desc="altnames rebound only by list(dict.fromkeys(altnames))")
-    ctx.check(bad["sink"] == 0, "R16.1", where, "return self.certstore.get_cert(cn, altnames, ...)", f"{bad['sink']} path(s) do not hand exactly (cn, altnames) to the store / modify the list after choosing cn", desc="store asked for exactly (cn, altnames)")
-
-    # cn = value of the first altname
-    class V:
-        def __init__(self, value):
-            self.value = value
-
-    def atom(node, env):
-        if isinstance(node, ast.Attribute) and node.attr == "value":
-            base = ceval(node.value, env, atom, "cn expression")
-            if isinstance(base, V):
-                return base.value
-        raise NotAnAtom
-
-    ctx.require(len(cn_exprs) == 1, "get_cert: cn is not assigned exactly once")
-    expr = next(iter(cn_exprs.values()))
-    cases = [([V("a.example"), V("b.example")], "a.example"), ([V("10.0.0.1")], "10.0.0.1"), ([], None)]
-    got = [ceval(expr, {"altnames": a}, atom, "cn expression") for a, _ in cases]
-    ctx.check(got == [w for _, w in cases], "R16.1", (T, "TlsConfig.get_cert", expr), "cn = value of the first altname", f"cn evaluates to {got} on the sample lists, expected {[w for _, w in cases]}", desc="cn is the first altname's value (None if empty)")
-
-    # _ip_or_dns_name
-    fn = ctx.func(T, "_ip_or_dns_name")
-    p = fn.args.args[0].arg
-    res, eng = traces_of(fn, FlowSpec(keep=lambda ev: ev[0] in ("ret", "except", "assignx"), ret_nodes=True, assign_nodes=True))
-    okf = True
-    kinds = set()
-    for t, how, st in res:
-        ret = [e[1] for e in t if e[0] == "ret"]
-        if how != "return" or len(ret) != 1 or not isinstance(ret[0], ast.Call):
-            okf = False
-            continue
-        cls = call_name(ret[0])
-        kinds.add(cls)
-        if ("except", "ValueError") in t:
-            a = ret[0].args[0] if ret[0].args else None
-            okf = okf and cls == "x509.DNSName" and a is not None and mentions(a, p) and "encode('idna')" in norm(a)
-        else:
-            ipdef = [e[2] for e in t if e[0] == "assignx"]
-            okf = okf and cls == "x509.IPAddress" and len(ipdef) == 1 and norm(ipdef[0]) == f"ipaddress.ip_address({p})" and norm(ret[0].args[0]) == [e[1] for e in t if e[0] == "assignx"][0]
-    ctx.check(okf and kinds == {"x509.DNSName", "x509.IPAddress"}, "R16.1", (T, "_ip_or_dns_name", fn), "IP literal -> IPAddress, else DNSName(idna)",
-              "names are not converted to the matching GeneralName type (IP SAN for addresses, IDNA-encoded DNS SAN otherwise): the certificate would not verify for that identity", desc="_ip_or_dns_name: IPAddress / DNSName(idna)")
-
-    # the presented certificate is the store entry
-    tsc = ctx.func(T, "TlsConfig.tls_start_client")
-    ed = local_defs(tsc, "entry")
-    uses = {call_name(c).split(".")[-1]: [norm(a) for a in c.args] for c in calls_in(tsc) if call_name(c).startswith("tls_start.ssl_conn.use_")}
-    ctx.check(len(ed) == 1 and norm(ed[0]) == "self.get_cert(tls_start.context)" and uses == {"use_certificate": ["entry.cert.to_cryptography()"], "use_privatekey": ["entry.privatekey"]}, "R16.1",
-              (T, "TlsConfig.tls_start_client", tsc), "ssl_conn.use_certificate(entry.cert) / use_privatekey(entry.privatekey)", f"the client connection does not present exactly the store entry of get_cert(context): {uses}", desc="tls_start_client presents get_cert(context)'s certificate and key")
-    ctx.expect_instances("R16.1", 7)
+    def __repr__(self):
+        return f"<{self.name}>"
 
 
-# ---- R16.2 ---------------------------------------------------------------------------------------
+class _Opaque:
+    """Value of an attribute the world model does not define.  It may be formatted (log lines) and passed around; deciding a branch on
+    it, iterating, calling or indexing it is outside the model (AnalysisError, never a guess)."""
+
+    def __init__(self, path):
+        object.__setattr__(self, "_p", path)
+
+    def __repr__(self):
+        return f"<{self._p}>"
+
+    __str__ = __repr__
+
+    def __format__(self, spec):
+        return repr(self)
+
+    def _no(self, *a, **kw):
+        raise AnalysisError(f"the certificate path depends on `{self._p}`, which the world model does not define")
+
+    __bool__ = __len__ = __iter__ = __call__ = __getitem__ = __contains__ = _no
+
+    def __getattr__(self, name):
+        if name.startswith("__"):
+            raise AttributeError(name)
+        return _Opaque(f"{self._p}.{name}")
 
 
-def _days_atom(model, now):
-    def atom(node, env):
-        if isinstance(node, ast.Call) and call_name(node) == "datetime.timedelta":
-            if node.args:
-                raise AnalysisError("timedelta with positional arguments not modelled")
-            unit = {"days": 1.0, "hours": 1 / 24, "minutes": 1 / 1440, "seconds": 1 / 86400, "weeks": 7.0}
-            tot = 0.0
-            for k in node.keywords:
-                if k.arg not in unit:
-                    raise AnalysisError(f"timedelta({k.arg}=...) not modelled")
-                tot += unit[k.arg] * ceval(k.value, env, atom, "timedelta")
-            return tot
-        if isinstance(node, ast.Name) and node.id not in env:
-            if node.id == "now":
-                return now
-            if model.module(F).assigns(node.id):
-                return ceval(model.const(F, node.id), {}, atom, f"{F}::{node.id}")
-        raise NotAnAtom
+class _Obj:
+    """a connection / context / options object of the world: defined attributes are values, everything else is _Opaque"""
 
-    return atom
+    def __init__(self, _path, **kw):
+        self.__dict__["_path"] = _path
+        self.__dict__.update(kw)
+
+    def __repr__(self):
+        return f"<{self._path}>"
+
+    def __getattr__(self, name):
+        if name.startswith("__"):
+            raise AttributeError(name)
+        return _Opaque(f"{self._path}.{name}")
 
 
-def _x509_stub():
-    """A recording stand-in for the parts of ``cryptography`` that dummy_cert uses (TRUSTED model of the library: builders are immutable, every
-    setter returns a new builder, NameAttribute refuses a common name longer than ub-common-name = 64, get_extension_for_class raises
-    ExtensionNotFound).  Only used as `trusted module` of the AST interpreter - repository code is never executed."""
+def _library():
+    """A recording stand-in for the parts of ``cryptography`` / ``datetime`` / ``logging`` that the certificate path uses (TRUSTED model of
+    the libraries: builders are immutable, every setter returns a new builder and may be used once, NameAttribute refuses a common name
+    longer than ub-common-name = 64, DNSName refuses non-ASCII, IPAddress refuses strings, get_extension_for_class raises ExtensionNotFound;
+    loggers and warnings.warn do nothing).  Only used as `trusted modules` of the AST interpreter - repository code is never executed."""
+    import datetime
+    import ipaddress
     import types
+
+    from ..pyint import Func
+    from ..pyint import Rec
 
     class ExtensionNotFound(Exception):
         pass
 
     class Named:
         def __init__(self, *a, **kw):
-            self.args, self.kw = a, kw
+            self.__dict__["args"], self.__dict__["kw"] = a, kw
 
         def __repr__(self):
             return f"{type(self).__name__}{self.args}"
 
+        def __eq__(self, other):
+            return type(self) is type(other) and self.args == other.args and self.kw == other.kw
+
+        def __ne__(self, other):
+            return not self == other
+
+        def __hash__(self):
+            return hash((type(self).__name__, repr(self.args)))
+
+        def __getattr__(self, name):
+            if name.startswith("__"):
+                raise AttributeError(name)
+            raise AnalysisError(f"library model: {type(self).__name__}.{name} is not modelled")
+
     class GeneralNames(list):
-        pass
+        def __hash__(self):
+            return hash(tuple(self))
 
     class DNSName(Named):
+        def __init__(self, value):
+            if not isinstance(value, str):
+                raise TypeError("value must be string")
+            if not value.isascii():
+                raise ValueError("DNSName values should be passed as an A-label string.")
+            Named.__init__(self, value)
+
         value = property(lambda self: self.args[0])
 
     class IPAddress(Named):
+        def __init__(self, value):
+            if not isinstance(value, (ipaddress.IPv4Address, ipaddress.IPv6Address, ipaddress.IPv4Network, ipaddress.IPv6Network)):
+                raise TypeError("value must be an instance of ipaddress.IPv4Address, ...")
+            Named.__init__(self, value)
+
         value = property(lambda self: self.args[0])
 
     class NameAttribute(Named):
         def __init__(self, oid, value, *a, **kw):
+            if not isinstance(value, str):
+                raise TypeError("value argument must be a str")
             if oid == "COMMON_NAME" and len(value) > 64:
                 raise ValueError("Attribute's length must be >= 1 and <= 64")
             if not value:
                 raise ValueError("Attribute's length must be >= 1")
             Named.__init__(self, oid, value)
-            self.oid, self.value = oid, value
+
+        oid = property(lambda self: self.args[0])
+        value = property(lambda self: self.args[1])
 
     class Name(Named):
         def __init__(self, attrs):
             Named.__init__(self, tuple(attrs))
-            self.attrs = tuple(attrs)
+
+        attrs = property(lambda self: self.args[0])
+
+        def __iter__(self):
+            return iter(self.args[0])
+
+        def __len__(self):
+            return len(self.args[0])
+
+        def get_attributes_for_oid(self, oid):
+            return [a for a in self.args[0] if a.oid == oid]
 
     class ExtendedKeyUsage(Named):
-        pass
+        def __init__(self, usages):
+            Named.__init__(self, tuple(usages))
+
+        def __iter__(self):
+            return iter(self.args[0])
 
     class SubjectAlternativeName(Named):
         def __init__(self, names):
             Named.__init__(self, tuple(names))
-            self.names = tuple(names)
+
+        names = property(lambda self: self.args[0])
+
+        def __iter__(self):
+            return iter(self.args[0])
 
     class SubjectKeyIdentifier(Named):
         pass
@@ -277,11 +229,53 @@ def _x509_stub():
         pass
 
     class UniformResourceIdentifier(Named):
-        pass
+        value = property(lambda self: self.args[0])
+
+    class Extension:
+        def __init__(self, value, critical):
+            self.value, self.critical = value, critical
+
+    class Extensions:
+        def __init__(self, exts):
+            self._exts = tuple(exts)
+
+        def get_extension_for_class(self, cls):
+            for e, crit in self._exts:
+                if type(e) is cls:
+                    return Extension(e, crit)
+            raise ExtensionNotFound()
+
+        def __iter__(self):
+            return iter(Extension(e, c) for e, c in self._exts)
+
+        def __len__(self):
+            return len(self._exts)
 
     class Certificate:
-        def __init__(self, fields, key):
-            self.fields, self.signed_with = dict(fields), key
+        def __init__(self, fields, key, algorithm=None):
+            self.fields, self.signed_with, self.algorithm = dict(fields), key, algorithm
+
+        issuer = property(lambda self: self.fields["issuer"])
+        subject = property(lambda self: self.fields["subject"])
+        serial_number = property(lambda self: self.fields["serial"])
+        not_valid_before = property(lambda self: self.fields["not_before"])
+        not_valid_after = property(lambda self: self.fields["not_after"])
+        not_valid_before_utc = property(lambda self: self.fields["not_before"])
+        not_valid_after_utc = property(lambda self: self.fields["not_after"])
+        extensions = property(lambda self: Extensions(self.fields["extensions"]))
+        signature_hash_algorithm = property(lambda self: self.algorithm)
+        version = "v3"
+
+        def public_key(self):
+            return self.fields["public_key"]
+
+        def fingerprint(self, algorithm=None):
+            return b"fingerprint-%d" % self.fields["serial"]
+
+        def __getattr__(self, name):
+            if name.startswith("__"):
+                raise AttributeError(name)
+            raise AnalysisError(f"library model: Certificate.{name} is not modelled")
 
     class CertificateBuilder:
         def __init__(self, fields=None):
@@ -312,185 +306,495 @@ def _x509_stub():
         def not_valid_after(self, t):
             return self._with("not_after", t)
 
-        def add_extension(self, ext, critical):
-            if any(type(e) is type(ext) for e, _ in self.fields["extensions"]):
+        def add_extension(self, extval, critical):
+            if any(type(e) is type(extval) for e, _ in self.fields["extensions"]):
                 raise ValueError("This extension has already been set.")
             f = dict(self.fields)
-            f["extensions"] = f["extensions"] + ((ext, bool(critical)),)
+            f["extensions"] = f["extensions"] + ((extval, bool(critical)),)
             return CertificateBuilder(f)
 
         def sign(self, private_key, algorithm, *a, **kw):
             for k in ("issuer", "subject", "public_key", "serial", "not_before", "not_after"):
                 if k not in self.fields:
                     raise ValueError(f"A certificate must have a {k}")
-            return Certificate(self.fields, private_key)
+            return Certificate(self.fields, private_key, algorithm)
 
     ns = types.SimpleNamespace
     oid = lambda *names: ns(**{n: n for n in names})  # noqa: E731
+    serials: list = []
+
+    def random_serial_number():
+        serials.append(0x5EED0000 + len(serials))
+        return serials[-1]
+
     x509 = ns(ExtensionNotFound=ExtensionNotFound, GeneralNames=GeneralNames, GeneralName=Named, DNSName=DNSName, IPAddress=IPAddress, NameAttribute=NameAttribute, Name=Name,
               ExtendedKeyUsage=ExtendedKeyUsage, SubjectAlternativeName=SubjectAlternativeName, SubjectKeyIdentifier=SubjectKeyIdentifier, AuthorityKeyIdentifier=AuthorityKeyIdentifier,
               CRLDistributionPoints=CRLDistributionPoints, DistributionPoint=DistributionPoint, UniformResourceIdentifier=UniformResourceIdentifier, Certificate=Certificate,
-              CertificateBuilder=CertificateBuilder, random_serial_number=lambda: "random-serial",
+              CertificateBuilder=CertificateBuilder, random_serial_number=random_serial_number, Extension=Extension, Extensions=Extensions,
               NameOID=oid("COMMON_NAME", "ORGANIZATION_NAME", "ORGANIZATIONAL_UNIT_NAME", "COUNTRY_NAME", "LOCALITY_NAME", "STATE_OR_PROVINCE_NAME"),
               ExtendedKeyUsageOID=oid("SERVER_AUTH", "CLIENT_AUTH", "CODE_SIGNING", "ANY_EXTENDED_KEY_USAGE"))
     x509.oid = ns(NameOID=x509.NameOID, ExtendedKeyUsageOID=x509.ExtendedKeyUsageOID)
-    hashes = ns(SHA256=lambda: "sha256", SHA384=lambda: "sha384", SHA512=lambda: "sha512")
+    hashes = ns(SHA256=lambda: _Tok("sha256"), SHA384=lambda: _Tok("sha384"), SHA512=lambda: _Tok("sha512"))
     pkg = ns(x509=x509, hazmat=ns(primitives=ns(hashes=hashes)))
+
+    # clock: a fixed instant, every reading is recorded
+    base = datetime.datetime(2030, 1, 15, 12, 0, 0)
+    nows: list = []
+
+    class FixedDT(datetime.datetime):
+        @classmethod
+        def now(cls, tz=None):
+            v = base.replace(tzinfo=tz) if tz is not None else base
+            nows.append(v)
+            return v
+
+        @classmethod
+        def utcnow(cls):
+            nows.append(base)
+            return base
+
+    dt = ns(datetime=FixedDT, timedelta=datetime.timedelta, timezone=datetime.timezone, UTC=datetime.timezone.utc, date=datetime.date, time=datetime.time)
+
+    # logging: loggers do nothing and are enabled for every level (so guarded debug code is interpreted too); they accept abstract values
+    lam = lambda text: Func(None, ast.parse(text, mode="eval").body)  # noqa: E731
+    noop, yes, lvl = lam("lambda *a, **k: None"), lam("lambda *a, **k: True"), lam("lambda *a, **k: 10")
+    quiet = {k: noop for k in ("debug", "info", "warning", "warn", "error", "exception", "critical", "log", "setLevel", "addHandler")}
+
+    def get_logger(*a, **k):
+        return Rec("Logger", isEnabledFor=yes, getEffectiveLevel=lvl, level=10, name="stub", **quiet)
+
+    warnings = ns(warn=noop, warn_explicit=noop, simplefilter=noop, filterwarnings=noop)
+    logging = ns(getLogger=get_logger, DEBUG=10, INFO=20, WARNING=30, WARN=30, ERROR=40, CRITICAL=50, NOTSET=0, **quiet)
 
     def cacert(with_ski):
         def get_extension_for_class(cls):
             if cls is SubjectKeyIdentifier and with_ski:
-                return ns(value="issuer-ski")
+                return ns(value="issuer-ski", critical=False)
             raise ExtensionNotFound()
 
         return ns(subject=Name([NameAttribute("COMMON_NAME", "mitmproxy CA")]), issuer=Name([NameAttribute("COMMON_NAME", "some root")]), public_key=lambda: "ca-public-key",
-                  extensions=ns(get_extension_for_class=get_extension_for_class))
+                  serial_number=0xCA5E41A1, extensions=ns(get_extension_for_class=get_extension_for_class))
 
-    return pkg, cacert
+    return ns(pkg=pkg, x509=x509, cacert=cacert, serials=serials, nows=nows, dt=dt, logging=logging, warnings=warnings)
 
 
-def _dummy_cert_worlds(ctx):
-    """Interpret dummy_cert's AST (pyint) in every world commonname x organization x crl_url x issuer-with/without-SKI and return
-    [(world, ('cert', subject attrs [(oid, value)], {ext class name: (ext, critical)}, cert) | ('raise', exception name))];
-    None when the function uses a construct the interpreter / library model does not cover (the caller falls back to the path reading)."""
-    import datetime
-    import itertools
-
+def _interp(ctx, lib):
+    """A fresh interpreter over the library model.  ``next`` / ``filter`` / ``map`` are supplied here (pyint materialises generator
+    expressions as lists and has no ``filter``): a list handed to ``next`` can only be such a materialised generator and is consumed."""
     from ..pyint import Interp
+
+    it = Interp(ctx.model, trusted_modules={"cryptography": lib.pkg, "cryptography.x509": lib.x509, "datetime": lib.dt, "logging": lib.logging, "warnings": lib.warnings,
+                                            "ipaddress": __import__("ipaddress"), "collections": __import__("collections.abc").abc and __import__("collections"),
+                                            "urllib": __import__("urllib.parse"), "contextlib": __import__("contextlib"), "itertools": __import__("itertools"),
+                                            "functools": __import__("functools"), "operator": __import__("operator"), "re": __import__("re"), "string": __import__("string")})
+    missing = object()
+
+    def next_(itr, default=missing):
+        from ..pyint import Raised
+
+        try:
+            if isinstance(itr, list):
+                if itr:
+                    return itr.pop(0)
+                raise StopIteration
+            return next(itr)
+        except StopIteration:
+            if default is missing:
+                raise Raised("StopIteration")
+            return default
+
+    def filter_(f, seq):
+        seq = it.iterate(seq, None)
+        return [x for x in seq if (it.truthy(x) if f is None else it.truthy(it.apply(f, [x], {}, 1)))]
+
+    def map_(f, *seqs):
+        return [it.apply(f, list(xs), {}, 1) for xs in zip(*[it.iterate(s, None) for s in seqs])]
+
+    it.externals = {"next": next_, "filter": filter_, "map": map_}
+    return it
+
+
+def _cert_of(it, rec, lib, what):
+    """the x509 certificate inside a repository ``Cert`` record"""
+    from ..pyint import Rec
+
+    c = None
+    if isinstance(rec, Rec):
+        try:
+            c = it.method(rec, "to_cryptography")
+        except AnalysisError:
+            c = rec.__dict__.get("_cert")
+    if not isinstance(c, lib.x509.Certificate):
+        raise AnalysisError(f"{what} does not yield Cert(<signed certificate>) in the interpreted model")
+    return c
+
+
+def _facts(cert, lib):
+    """(subject attributes [(oid, value)], {extension class name: (extension, critical)})"""
+    subj = cert.fields["subject"]
+    if not isinstance(subj, lib.x509.Name):
+        raise AnalysisError("subject_name() is not given an x509.Name in the interpreted model")
+    return [(a.oid, a.value) for a in subj.attrs], {type(e).__name__: (e, crit) for e, crit in cert.fields["extensions"]}
+
+
+def _store(it, lib, with_ski=True):
+    """A CertStore record without any entry.  It is built by interpreting ``CertStore.__init__`` (so that attributes a maintainer adds
+    there exist); when the constructor cannot be interpreted with today's parameter names, from the attributes the class annotates."""
+    from ..pyint import ClassRef
     from ..pyint import Raised
     from ..pyint import Rec
 
-    pkg, cacert = _x509_stub()
+    key = _Tok("ca-private-key")
+    ca = Rec("Cert", _impl=(F, "Cert"), _cert=lib.cacert(with_ski))
+    store = None
+    try:
+        mod = it.model.module(F)
+        store = it.apply(ClassRef(mod, it.model.cls(F, "CertStore")), [], dict(default_privatekey=key, default_ca=ca, default_chain_file=None, default_crl=b"crl", dhparams=b"dh"), 0)
+        if not (isinstance(store, Rec) and store.__dict__.get("default_privatekey") is key and store.__dict__.get("default_ca") is ca and store.__dict__.get("certs") == {}):
+            store = None
+    except (Raised, AnalysisError):
+        store = None
+    if store is None:
+        store = Rec("CertStore", _impl=(F, "CertStore"), certs={}, expire_queue=[], default_privatekey=key, default_ca=ca, default_chain_file=None, default_chain_certs=[ca],
+                    default_crl=b"crl", dhparams=b"dh")
+    return store, key, ca
+
+
+def _call(it, f, values, what):
+    """Apply the repository function ``f`` (pyint Func) to ``values`` given in today's parameter order: positionally as far as the function has
+    positional parameters, the rest to its keyword-only parameters in order (a `*,` inserted into the signature is harmless)."""
+    a = f.node.args
+    npos = len(a.posonlyargs) + len(a.args) - (1 if f.bound is not None else 0)
+    rest = values[npos:]
+    if len(rest) > len(a.kwonlyargs) and not a.vararg:
+        raise AnalysisError(f"{what}: signature changed (takes fewer than {len(values)} arguments)")
+    return it.apply(f, list(values[:npos]) if not a.vararg else list(values), {} if a.vararg else {k.arg: v for k, v in zip(a.kwonlyargs, rest)}, 0)
+
+
+# ---- R16.1 ----------------------------------------------------------------------------------------
+
+
+def _gn(lib, s):
+    import ipaddress
+
+    try:
+        ip = ipaddress.ip_address(s)
+    except ValueError:
+        return lib.x509.DNSName(s.encode("idna").decode())
+    return lib.x509.IPAddress(ip)
+
+
+def _dedupe(xs):
+    return list(dict.fromkeys(xs))
+
+
+def _r16_1_worlds(lib, full):
+    import ipaddress
+    import itertools
+
+    X = lib.x509
+
+    def upstream(i):
+        mk = lambda path, **kw: _Obj(path, **kw)  # noqa: E731
+        leafs = [
+            dict(cn="upstream-cn.example", altnames=X.GeneralNames([X.DNSName("up-alt.example"), X.DNSName("*.shared.example"), X.IPAddress(ipaddress.ip_address("198.51.100.9"))]),
+                 organization="Upstream Org", crl_distribution_points=["http://crl.up.example/ca.crl"]),
+            dict(cn=None, altnames=X.GeneralNames([]), organization=None, crl_distribution_points=[]),
+            dict(cn="203.0.113.5", altnames=X.GeneralNames([X.DNSName("dup.example"), X.DNSName("yankee.example")]), organization=None, crl_distribution_points=["http://[malformed/ca.crl"]),
+        ]
+        inter = dict(cn="intermediate-ca.invalid", altnames=X.GeneralNames([X.DNSName("intermediate-alt.invalid")]), organization="Intermediate Org", crl_distribution_points=["http://crl.intermediate.invalid/x.crl"])
+        return [mk("server.certificate_list[0]", **leafs[i]), mk("server.certificate_list[1]", **inter)]
+
+    snis = [None, "alpha.example", "zulu.example", "bücher.example", "192.0.2.33", "api.eu.shared.example", "dup.example"]
+    socks = [("192.0.2.7", 8080), ("2001:db8::7", 8080, 0, 0)]
+    addrs = [None, ("mike.example", 443), ("192.0.2.80", 443), "same-as-sni"]
+    if full:
+        grid = list(itertools.product((True, False), (None, 0, 1, 2), snis, addrs))
+    else:  # quick tier: the full SNI x address grid without / with the first upstream certificate, a reduced grid for the other combinations
+        few_sni, few_addr = [None, "alpha.example", "zulu.example", "api.eu.shared.example", "dup.example"], [None, ("mike.example", 443), "same-as-sni"]
+        grid = list(itertools.product((True,), (None, 0), snis, addrs)) + list(itertools.product((True,), (1, 2), few_sni, few_addr)) + list(itertools.product((False,), (0,), few_sni, few_addr))
+    for opt, ci, sni, addr in grid:
+        for sock in (socks if sni is None and (full or ci in (None, 0)) else socks[1:] if sni is None else socks[:1]):
+            if addr == "same-as-sni":
+                a = (sni or sock[0], 443)
+            else:
+                a = addr
+            certlist = upstream(ci) if ci is not None else []
+            yield {"upstream_cert option": opt, "server certificate": ci, "sni": sni, "sockname": sock, "server address": a}, certlist
+
+
+def _r16_1(ctx, lib):
+    from ..pyint import Raised
+    from ..pyint import Rec
+
+    gc = ctx.func(T, "TlsConfig.get_cert")
+    ctx.func(F, "CertStore.get_cert")
+    where = (T, "TlsConfig.get_cert", gc)
+    bad = {k: [] for k in ("source", "convert", "identity", "raise", "dup", "cn", "entry")}
+    seqs = []  # (world, parts [(kind, name)], issued SANs)
+    seen_kinds = set()
+    n = 0
+    for world, certlist in _r16_1_worlds(lib, ctx.tier == "thorough"):
+        n += 1
+        ctx.cells += 1
+        it = _interp(ctx, lib)
+        store, key, ca = _store(it, lib)
+        client = _Obj("conn_context.client", sni=world["sni"], sockname=world["sockname"], peername=("198.18.0.1", 51234), address=("198.18.0.1", 51234), alpn=None, tls_established=False,
+                      certificate_list=[], id="client-id", transport_protocol="tcp", proxy_mode=_Obj("conn_context.client.proxy_mode", type_name="regular", full_spec="regular"))
+        server = _Obj("conn_context.server", address=world["server address"], certificate_list=certlist, sni="server-sni.invalid", peername=("203.0.113.99", 443), alpn=None,
+                      tls_established=bool(certlist), id="server-id", transport_protocol="tcp", via=None)
+        cc = _Obj("conn_context", client=client, server=server)
+        it.overrides[(T, "ctx")] = _Obj("ctx", options=_Obj("ctx.options", upstream_cert=world["upstream_cert option"]))
+        me = Rec("TlsConfig", _impl=(T, "TlsConfig"), certstore=store)
+        short = {k: v for k, v in world.items()}
+        try:
+            entry = _call(it, it.getattr(me, "get_cert", None, 0), [cc], "TlsConfig.get_cert")
+        except Raised as e:
+            bad["raise"].append(f"{e.name} for {short}")
+            continue
+        if not isinstance(entry, Rec) or "cert" not in entry.__dict__:
+            raise AnalysisError("TlsConfig.get_cert does not return a store entry with a `cert` in the interpreted model")
+        cert = _cert_of(it, entry.cert, lib, "TlsConfig.get_cert(...).cert")
+        attrs, exts = _facts(cert, lib)
+        if cert.signed_with is not key or entry.__dict__.get("privatekey") is not key or cert.fields["issuer"] is not ca._cert.subject:
+            bad["entry"].append(f"{short}")
+        san = exts.get("SubjectAlternativeName")
+        names = list(san[0].names) if san else []
+        # what may be named in this world
+        ident = _gn(lib, world["sni"] or world["sockname"][0])
+        parts = []
+        if world["upstream_cert option"] and certlist:
+            up = certlist[0]
+            if up.cn:
+                parts.append(("upstream cn", _gn(lib, up.cn)))
+            parts += [(f"upstream altname {i}", a) for i, a in enumerate(up.altnames)]
+        parts.append(("sni / local address", ident))
+        if world["server address"]:
+            parts.append(("server address", _gn(lib, world["server address"][0])))
+        allowed = {g for _, g in parts}
+        raw = {str(g.value) for g in allowed} | {s for s in (world["sni"], world["sockname"][0], (world["server address"] or [None])[0]) if s}
+        for r in names:
+            if r in allowed:
+                continue
+            if str(getattr(r, "value", r)) in raw:
+                bad["convert"].append(f"{r!r} for {short}")
+            else:
+                bad["source"].append(f"{r!r} for {short}")
+        if ident not in names:
+            bad["identity"].append(f"{short} -> {names}")
+        cns = [v for o, v in attrs if o == "COMMON_NAME"]
+        want_cn = [str(names[0].value)] if names else []
+        if cns != want_cn:
+            bad["cn"].append(f"CN {cns} but SANs {names} for {short}")
+        if all(r in allowed for r in names):
+            seqs.append((short, parts, names))
+            seen_kinds |= {k.split(" altname")[0] for k, g in parts if g in names}
+        if n in (1, 40, 100):
+            ctx.sample({"world": {k: str(v) for k, v in short.items()}, "subject": attrs, "subjectAltName": [repr(x) for x in names]})
+    ctx.require(len(seqs) + len(bad["raise"]) > 0 or bad["source"] or bad["convert"], "get_cert: no interpreted world yields a certificate")
+    ctx.require({"upstream cn", "upstream", "sni / local address", "server address"} <= seen_kinds or any(bad.values()),
+                f"get_cert: expected identity sources not found in any interpreted world: {sorted(seen_kinds)}")
+
+    # order: value-independent, first occurrence kept
+    orient = {}
+    for short, parts, names in seqs:
+        if len({g for _, g in parts}) != len(parts):
+            continue
+        kind = {g: k for k, g in parts}
+        ks = [kind[r] for r in _dedupe(names)]
+        for i, a in enumerate(ks):
+            for b in ks[i + 1 :]:
+                orient.setdefault((a, b), short)
+    conflicts = sorted((a, b) for (a, b) in orient if (b, a) in orient and a < b)
+    canon = {}
+    for _, parts, _ in seqs:
+        for k, _g in parts:
+            canon.setdefault(k, len(canon))
+    rank = {k: (sum(1 for (a, b) in orient if b == k), canon[k]) for k in canon}
+    order_bad = []
+    if conflicts:
+        a, b = conflicts[0]
+        order_bad.append(f"`{a}` comes before `{b}` for {orient[(a, b)]} but after it for {orient[(b, a)]}")
+    else:
+        for short, parts, names in seqs:
+            want = [g for g in _dedupe([g for _, g in sorted(parts, key=lambda p: rank[p[0]])]) if g in names]
+            if _dedupe(names) != want:
+                order_bad.append(f"{names} for {short}, expected {want}")
+            if len(names) != len(set(names)):
+                bad["dup"].append(f"{names} for {short}")
+    ctx.paths += n
+
+    def first(xs):
+        return f"{len(xs)} case(s) in {n} world(s), e.g. {xs[0][:420]}" if xs else ""
+
+    ctx.check(not bad["raise"], "R16.1", where, "a certificate is issued in every world", f"get_cert raises instead of issuing a certificate: {first(bad['raise'])}", desc=f"get_cert issues a certificate in all {n} interpreted worlds")
+    ctx.check(not bad["source"], "R16.1", where, "altnames sources", "a name enters the certificate that is not (option-gated) upstream cn/altnames, SNI, local address or server address: "
+              f"{first(bad['source'])}", desc=f"every SAN comes from an allowed, control-dependent source ({n} worlds; sources seen: {sorted(seen_kinds)})")
+    ctx.check(not bad["convert"], "R16.1", where, "IP literal -> IPAddress, else DNSName(idna)",
+              f"names are not converted to the matching GeneralName type (IP SAN for addresses, IDNA-encoded DNS SAN otherwise): the certificate would not verify for that identity: {first(bad['convert'])}",
+              desc="every name is an IPAddress (IP literal) / DNSName of the IDNA A-label (IPv4, IPv6, IDN worlds)")
+    ctx.check(not bad["identity"], "R16.1", where, "SNI (else local address) always among the altnames", f"the certificate does not name the identity the client asked for: {first(bad['identity'])}", desc=f"SNI / local address named in all {n} worlds")
+    ctx.check(not order_bad and not bad["dup"], "R16.1", where, "altnames only rebound by order-preserving de-duplication",
+              f"the SAN list is not the order-preserving (first occurrence) de-duplication of the names as added: {first(order_bad or bad['dup'])}", desc="SAN order is value-independent and keeps first occurrences; no duplicates")
+    ctx.check(not bad["cn"], "R16.1", where, "cn = value of the first altname", f"the subject CN is not the first SAN's value: {first(bad['cn'])}", desc="CN is the first SAN's value in every world")
+    ctx.check(not bad["entry"], "R16.1", where, "return self.certstore.get_cert(cn, altnames, ...)", f"the returned entry is not the store's CA-signed certificate with the store's key: {first(bad['entry'])}", desc="the returned entry carries the CA-signed certificate and the store's key")
+
+    # the presented certificate is the store entry
+    tsc = ctx.func(T, "TlsConfig.tls_start_client")
+    params = [a.arg for a in tsc.args.args]
+    ctx.require(len(params) >= 2, "tls_start_client signature changed")
+    p = params[1]
+
+    tmod = ctx.model.module(T)
+
+    def resolved(e, fn, binds, depth=0):
+        """text of ``e`` (an expression of ``fn``) with the callee's parameters (``binds``: name -> caller's text) and single-assignment
+        local temporaries substituted"""
+        e = ast.parse(ast.unparse(e), mode="eval").body  # a private copy without parent links
+        fparams = [a.arg for a in fn.args.posonlyargs + fn.args.args + fn.args.kwonlyargs]
+
+        class Sub(ast.NodeTransformer):
+            def visit_Name(self, node):
+                if not isinstance(node.ctx, ast.Load) or depth >= 8:
+                    return node
+                if node.id in binds:
+                    return ast.parse(binds[node.id], mode="eval").body
+                if node.id not in fparams:
+                    d = local_defs(fn, node.id)
+                    par = getattr(d[0], "_parent", None) if len(d) == 1 else None
+                    if (isinstance(par, ast.Assign) and len(par.targets) == 1 and isinstance(par.targets[0], ast.Name)) or isinstance(par, ast.AnnAssign):
+                        return ast.parse(resolved(d[0], fn, binds, depth + 1), mode="eval").body
+                return node
+
+        return " ".join(ast.unparse(Sub().visit(e)).split())
+
+    uses = {}
+
+    def scan(fn, binds, depth):
+        for c in calls_in(fn):
+            if isinstance(c.func, ast.Attribute) and c.func.attr in ("use_certificate", "use_privatekey"):
+                uses.setdefault(c.func.attr, []).append(([resolved(a, fn, binds) for a in c.args], resolved(c.func.value, fn, binds)))
+                continue
+            # a private helper of the addon / module that is handed the connection or the entry: follow it (one binding per parameter)
+            callee = None
+            if isinstance(c.func, ast.Attribute) and isinstance(c.func.value, ast.Name) and c.func.value.id == "self" and ctx.model.has(T, f"TlsConfig.{c.func.attr}"):
+                callee, skip = ctx.model.func(T, f"TlsConfig.{c.func.attr}"), 1
+                if any(norm(d) == "staticmethod" for d in callee.decorator_list):
+                    skip = 0
+            elif isinstance(c.func, ast.Name) and isinstance(tmod.get(c.func.id), ast.FunctionDef):
+                callee, skip = tmod.get(c.func.id), 0
+            if callee is None or depth >= 3 or callee is fn or callee.name in ("get_cert",) or any(isinstance(a, ast.Starred) for a in c.args) or any(k.arg is None for k in c.keywords):
+                continue
+            if not any(isinstance(x, ast.Attribute) and x.attr in ("use_certificate", "use_privatekey") for x in ast.walk(callee)) and not any(
+                isinstance(x, ast.Call) and isinstance(x.func, (ast.Attribute, ast.Name)) for x in ast.walk(callee)
+            ):
+                continue
+            cparams = [a.arg for a in callee.args.posonlyargs + callee.args.args][skip:]
+            b2 = {"self": "self"} if skip else {}
+            for name, arg in list(zip(cparams, c.args)) + [(k.arg, k.value) for k in c.keywords]:
+                b2[name] = resolved(arg, fn, binds)
+            scan(callee, b2, depth + 1)
+
+    scan(tsc, {}, 0)
+    ctx.require(set(uses) == {"use_certificate", "use_privatekey"}, f"tls_start_client: use_certificate / use_privatekey calls not found: {sorted(uses)}")
+    e = f"self.get_cert({p}.context)"
+    okc = [a for a, recv in uses["use_certificate"]] == [[f"{e}.cert.to_cryptography()"]] or [a for a, recv in uses["use_certificate"]] == [[f"{e}.cert._cert"]]
+    okk = [a for a, recv in uses["use_privatekey"]] == [[f"{e}.privatekey"]]
+    same = uses["use_certificate"][0][1] == uses["use_privatekey"][0][1]
+    ctx.check(okc and okk and same, "R16.1", (T, "TlsConfig.tls_start_client", tsc), "ssl_conn.use_certificate(entry.cert) / use_privatekey(entry.privatekey)",
+              f"the client connection does not present exactly the store entry of get_cert(context): {uses}", desc="tls_start_client presents get_cert(context)'s certificate and key")
+    ctx.expect_instances("R16.1", 8)
+
+
+# ---- R16.2 ----------------------------------------------------------------------------------------
+
+
+def _dummy_cert_worlds(ctx, lib):
+    """Interpret dummy_cert's AST in every world commonname x organization x crl_url x issuer-with/without-SKI:
+    [(world, ('cert', certificate, returned-is-Cert-of-it) | ('raise', exception name), sans, cacert, key, now readings, serials drawn)]"""
+    import itertools
+
+    from ..pyint import Func
+    from ..pyint import Raised
+
     out = []
     names = {"None": None, "short": "example.com", "63 chars": "a" * 59 + ".com", "64 chars": "a" * 60 + ".com", "65 chars": "a" * 61 + ".com", "300 chars": "a" * 296 + ".com"}
-    try:
-        for (cn_k, cn), org, crl, ski in itertools.product(names.items(), (None, "Example Org"), (None, "http://crl.example/ca.crl"), (True, False)):
-            it = Interp(ctx.model, trusted_modules={"cryptography": pkg, "cryptography.x509": pkg.x509, "datetime": datetime, "warnings": __import__("warnings"), "ipaddress": __import__("ipaddress"), "collections": __import__("collections.abc").abc and __import__("collections")})
-            sans = [pkg.x509.DNSName(cn or "192.0.2.1")]
-            world = {"commonname": cn_k, "organization": org, "crl_url": crl, "issuer_has_ski": ski}
-            ctx.cells += 1
-            try:
-                r = it.call(F, "dummy_cert", "ca-private-key", cacert(ski), cn, sans, organization=org, crl_url=crl)
-            except Raised as e:
-                out.append((world, ("raise", e.name), sans))
-                continue
-            cert = getattr(r, "_cert", None) if isinstance(r, Rec) else None
-            if not isinstance(cert, pkg.x509.Certificate):
-                raise AnalysisError("dummy_cert does not return Cert(<signed certificate>) in the interpreted model")
-            attrs = [(a.oid, a.value) for a in cert.fields["subject"].attrs]
-            exts = {type(e).__name__: (e, crit) for e, crit in cert.fields["extensions"]}
-            out.append((world, ("cert", attrs, exts, cert), sans))
-    except AnalysisError as e:
-        ctx.note(f"dummy_cert could not be interpreted ({e}); falling back to the path reading of SAN criticality / CN gate")
-        return None
+    for (cn_k, cn), org, crl, ski in itertools.product(names.items(), (None, "Example Org"), (None, "http://crl.example/ca.crl"), (True, False)):
+        it = _interp(ctx, lib)
+        sans = [lib.x509.DNSName(cn or "fallback.example"), _gn(lib, "192.0.2.1")]
+        world = {"commonname": cn_k, "organization": org, "crl_url": crl, "issuer_has_ski": ski}
+        ctx.cells += 1
+        key, cacert = _Tok("ca-private-key"), lib.cacert(ski)
+        n0, s0 = len(lib.nows), len(lib.serials)
+        try:
+            r = _call(it, Func(ctx.model.module(F), ctx.model.func(F, "dummy_cert")), [key, cacert, cn, sans, org, crl], "dummy_cert")
+        except Raised as e:
+            out.append((world, ("raise", e.name), sans, cacert, key, [], []))
+            continue
+        cert = _cert_of(it, r, lib, "dummy_cert")
+        out.append((world, ("cert", cert), sans, cacert, key, lib.nows[n0:], lib.serials[s0:]))
     return out
 
 
-def _r16_2(ctx):
-    m = ctx.model
+def _r16_2(ctx, lib):
+    import datetime
+
+    from ..pyint import Raised
+    from ..pyint import Rec
+
     dc = ctx.func(F, "dummy_cert")
     where = (F, "dummy_cert", dc)
-    params = [a.arg for a in dc.args.args]
-    ctx.require(params[:4] == ["privkey", "cacert", "commonname", "sans"], f"dummy_cert signature changed: {params}")
-    # every builder call keeps its result
-    B = "builder"
-    for c in calls_in(dc):
-        if isinstance(c.func, ast.Attribute) and isinstance(c.func.value, ast.Name) and c.func.value.id == B and c.func.attr != "sign":
-            par = getattr(c, "_parent", None)
-            ctx.require(isinstance(par, ast.Assign) and len(par.targets) == 1 and isinstance(par.targets[0], ast.Name) and par.targets[0].id == B,
-                        f"dummy_cert: result of {norm(c)[:60]} is not assigned back to `{B}` (builder objects are immutable) - shape not modelled")
-    nowdef = local_defs(dc, "now")
-    ctx.require(len(nowdef) == 1 and isinstance(nowdef[0], ast.Call) and call_name(nowdef[0]).split(".")[-1] in ("now", "utcnow"), "dummy_cert: `now` is not taken from datetime.now()")
-
-    def keep(ev):
-        if ev[0] == "callx":
-            return ev[1].startswith(B + ".") or ev[1] in ("Cert", "subject.append")
-        if ev[0] == "cond":
-            return ev[1] in ("is_valid_commonname", "organization is not None", "crl_url")
-        return ev[0] in ("ret", "except") or (ev[0] == "assignx" and ev[1] in ("aki", "issuer_ski", "cert", "is_valid_commonname"))
-
-    res, eng = traces_of(dc, FlowSpec(keep=keep, call_nodes=True, assign_nodes=True, ret_nodes=True))
-    term = [(t, how) for t, how, st in res if how == "return"]
-    ctx.require(term, "dummy_cert: no returning path")
-    ctx.paths += len(term)
-    bad = {k: 0 for k in ("issuer", "eku", "validity", "san", "critical", "aki", "sign", "serial")}
-    worlds = _dummy_cert_worlds(ctx)
-    crit_wit = cn_wit = None
-    if worlds is not None:
-        n_cn = 0
-        for world, res, sans in worlds:
-            if res[0] == "raise":
-                cn_wit = cn_wit or f"dummy_cert raises {res[1]} for {world}"
-                continue
-            _, attrs, exts, cert = res
-            cns = [v for o, v in attrs if o == "COMMON_NAME"]
-            n_cn += bool(cns)
-            if any(len(v) > 64 for v in cns):
-                cn_wit = cn_wit or f"a {len(cns[0])}-character common name is put into the subject for {world}"
-            san_ext = exts.get("SubjectAlternativeName")
-            if san_ext is None or [x for x in san_ext[0].names] != sans:
-                bad["san"] += 1
-            elif not attrs and not san_ext[1]:
-                bad["critical"] += 1
-                crit_wit = crit_wit or f"commonname: {world['commonname']}, organization: {world['organization']!r} -> subject is empty, subjectAltName critical={san_ext[1]}"
-        ctx.require(n_cn or cn_wit, "dummy_cert: no interpreted world puts a common name into the subject (anchor changed)")
-    atom = _days_atom(m, 1000.0)
-    n_fallback = 0
-    for t, how in term:
-        calls = {}
-        for e in t:
-            if e[0] == "callx" and e[1].startswith(B + "."):
-                calls.setdefault(e[1][len(B) + 1 :], []).append(e[2])
-        one = lambda k: calls.get(k, [None])[0] if len(calls.get(k, [])) == 1 else None  # noqa: E731
-        c = one("issuer_name")
-        if c is None or [norm(a) for a in c.args] != ["cacert.subject"]:
-            bad["issuer"] += 1
-        exts = calls.get("add_extension", [])
-        ext_cls = [call_name(x.args[0]) if x.args and isinstance(x.args[0], ast.Call) else norm(x.args[0]) if x.args else "" for x in exts]
-        eku = [x for x, k in zip(exts, ext_cls) if k == "x509.ExtendedKeyUsage"]
-        if len(eku) != 1 or not any(last_attr(n) == "SERVER_AUTH" for n in ast.walk(eku[0].args[0])):
-            bad["eku"] += 1
-        nb, na = one("not_valid_before"), one("not_valid_after")
-        if nb is None or na is None:
-            bad["validity"] += 1
-        else:
-            vb, va = ceval(nb.args[0], {}, atom, "not_valid_before"), ceval(na.args[0], {}, atom, "not_valid_after")
-            if not (vb < 1000.0 < va and 1000.0 - vb <= 30):
-                bad["validity"] += 1
-        san = [x for x, k in zip(exts, ext_cls) if k == "x509.SubjectAlternativeName"]
-        if len(san) != 1 or not mentions(san[0].args[0], "sans"):
-            bad["san"] += 1
-        else:
-            crit = {k.arg: k.value for k in san[0].keywords}.get("critical", san[0].args[1] if len(san[0].args) > 1 else None)
-            valid_cn = [e[2] for e in t if e[0] == "cond" and e[1] == "is_valid_commonname"]
-            subject_attrs = [e for e in t if e[0] == "callx" and e[1] == "subject.append"]
-            if worlds is None:  # legacy path reading, only when the function could not be interpreted
-                if crit is None or not valid_cn:
-                    raise AnalysisError("dummy_cert: SAN criticality / is_valid_commonname shape not modelled")
-                if not subject_attrs and not bool(ceval(crit, {"is_valid_commonname": valid_cn[-1]}, None, "SAN critical")):
-                    bad["critical"] += 1
-        akis = [x for x, k in zip(exts, ext_cls) if k == "aki"]
-        aki_def = [norm(e[2]) for e in t if e[0] == "assignx" and e[1] == "aki"]
-        ski_def = [norm(e[2]) for e in t if e[0] == "assignx" and e[1] == "issuer_ski"]
-        fallback = ("except", "ExtensionNotFound") in t
-        n_fallback += fallback
-        want = "x509.AuthorityKeyIdentifier.from_issuer_public_key(cacert.public_key())" if fallback else "x509.AuthorityKeyIdentifier.from_issuer_subject_key_identifier(issuer_ski)"
-        ok = len(akis) == 1 and aki_def[-1:] == [want]
-        if not fallback:
-            ok = ok and ski_def == ["cacert.extensions.get_extension_for_class(x509.SubjectKeyIdentifier).value"]
-        if not ok:
-            bad["aki"] += 1
-        sg = one("sign")
-        certdef = [e[2] for e in t if e[0] == "assignx" and e[1] == "cert"]
-        ret = [e[1] for e in t if e[0] == "ret"]
-        ok = sg is not None and ({k.arg: norm(k.value) for k in sg.keywords}.get("private_key") == "privkey" or (sg.args and norm(sg.args[0]) == "privkey"))
-        ok = ok and len(certdef) == 1 and certdef[0] is sg and len(ret) == 1 and norm(ret[0]) == "Cert(cert)"
-        if not ok:
-            bad["sign"] += 1
-        sn = one("serial_number")
-        if sn is None or [norm(a) for a in sn.args] != ["x509.random_serial_number()"]:
-            bad["serial"] += 1
-    ctx.require(n_fallback > 0, "dummy_cert: AKI fallback path (issuer without SKI) not found")
+    worlds = _dummy_cert_worlds(ctx, lib)
+    bad = {k: [] for k in ("issuer", "eku", "validity", "san", "critical", "aki", "sign", "serial")}
+    cn_wit = None
+    n_cn = n_fallback = 0
+    for world, res, sans, cacert, key, nows, serials in worlds:
+        if res[0] == "raise":
+            cn_wit = cn_wit or f"dummy_cert raises {res[1]} for {world}"
+            continue
+        cert = res[1]
+        attrs, exts = _facts(cert, lib)
+        f = cert.fields
+        w = str(world)
+        if f["issuer"] is not cacert.subject and f["issuer"] != cacert.subject:
+            bad["issuer"].append(w)
+        eku = exts.get("ExtendedKeyUsage")
+        try:
+            usages = list(eku[0].args[0]) if eku else []
+        except TypeError:
+            raise AnalysisError("ExtendedKeyUsage is not given a sequence in the interpreted model")
+        if "SERVER_AUTH" not in usages:
+            bad["eku"].append(f"{usages} for {w}")
+        nb, na = f["not_before"], f["not_after"]
+        if len(set(nows)) != 1 or not isinstance(nb, datetime.datetime) or not isinstance(na, datetime.datetime):
+            raise AnalysisError("dummy_cert: the validity window is not computed from one reading of datetime.now() - not modelled")
+        try:
+            okv = nb < nows[0] < na and nows[0] - nb <= datetime.timedelta(days=30)
+        except TypeError:
+            okv = False
+        if not okv:
+            bad["validity"].append(f"not_before = now{_delta(nb, nows[0])}, not_after = now{_delta(na, nows[0])}")
+        cns = [v for o, v in attrs if o == "COMMON_NAME"]
+        n_cn += bool(cns)
+        if any(len(v) > 64 for v in cns):
+            cn_wit = cn_wit or f"a {len(cns[0])}-character common name is put into the subject for {world}"
+        san_ext = exts.get("SubjectAlternativeName")
+        if san_ext is None or list(san_ext[0].names) != sans:
+            bad["san"].append(w)
+        elif not attrs and not san_ext[1]:
+            bad["critical"].append(f"commonname: {world['commonname']}, organization: {world['organization']!r} -> subject is empty, subjectAltName critical={san_ext[1]}")
+        aki = exts.get("AuthorityKeyIdentifier")
+        want = ("ski", "issuer-ski") if world["issuer_has_ski"] else ("public_key", "ca-public-key")
+        n_fallback += not world["issuer_has_ski"]
+        if aki is None or aki[0].args != want:
+            bad["aki"].append(f"{aki[0] if aki else None} for {w}")
+        if cert.signed_with is not key:
+            bad["sign"].append(w)
+        if len(serials) != 1 or f["serial"] != serials[0]:
+            bad["serial"].append(w)
+    ctx.require(n_cn or cn_wit, "dummy_cert: no interpreted world puts a common name into the subject (anchor changed)")
+    ctx.require(n_fallback > 0 or cn_wit, "dummy_cert: AKI fallback world (issuer without SKI) not reached")
+    nw = len(worlds)
     msg = {
         "issuer": ("issuer_name(cacert.subject)", "the leaf is not issued under the CA's subject name: the chain does not build"),
         "eku": ("ExtendedKeyUsage([SERVER_AUTH])", "the leaf is not marked for TLS server authentication"),
@@ -502,51 +806,54 @@ def _r16_2(ctx):
         "serial": ("serial_number(random_serial_number())", "no fresh serial number"),
     }
     for k, (construct, why) in msg.items():
-        extra = f" [{crit_wit}]" if k == "critical" and crit_wit else ""
-        unit = f"{len(worlds)} interpreted world(s)" if worlds is not None and k in ("critical",) else f"{len(term)} path(s)"
-        ctx.check(bad[k] == 0, "R16.2", where, construct, f"{bad[k]} of {unit}: {why}{extra}", desc=f"{construct} on all {len(term)} paths" + (f" / {len(worlds)} interpreted worlds" if worlds is not None and k in ("san", "critical") else ""))
-    # common name length gate
-    if worlds is not None:
-        ctx.check(cn_wit is None, "R16.2", where, "common name only if present and <= 64 characters", f"{cn_wit}: certificate generation fails or yields an invalid subject for long SNIs",
-                  desc=f"CN only when present and short enough ({len(worlds)} interpreted worlds: None / 11 / 63 / 64 / 65 / 300 characters)")
-    else:
-        ivc = local_defs(dc, "is_valid_commonname")
-        ctx.require(len(ivc) == 1, "dummy_cert: is_valid_commonname not assigned exactly once")
-        lworlds = {"None": None, "65 chars": "a" * 65, "300 chars": "a" * 300}
-        wrong = [k for k, v in lworlds.items() if bool(ceval(ivc[0], {"commonname": v}, None, "is_valid_commonname"))]
-        cn_attr = [c for c in calls_in(dc, "x509.NameAttribute") if any(last_attr(a) == "COMMON_NAME" for a in c.args)]
-        guarded = all(any(isinstance(p, ast.If) and norm(p.test) == "is_valid_commonname" for p in _parents(c)) for c in cn_attr)
-        ctx.check(not wrong and guarded, "R16.2", where, "common name only if present and <= 64 characters", f"a common name is accepted for {wrong} / the COMMON_NAME attribute is not guarded by is_valid_commonname: certificate generation fails or yields an invalid subject for long SNIs", desc="CN only when present and short enough")
-    # constants
-    off = ceval(m.const(F, "CERT_VALIDITY_OFFSET"), {}, atom, "CERT_VALIDITY_OFFSET")
-    exp = ceval(m.const(F, "CERT_EXPIRY"), {}, atom, "CERT_EXPIRY")
-    ctx.check(off < 0 < exp and off + exp > 0, "R16.2", (F, "<module>", m.const(F, "CERT_EXPIRY")), "CERT_VALIDITY_OFFSET < 0 < CERT_EXPIRY", f"offset {off} days, expiry {exp} days", desc=f"CERT_VALIDITY_OFFSET={off}d, CERT_EXPIRY={exp}d")
-    # issued by the store's CA: key and certificate belong together at the call site
+        ctx.check(not bad[k], "R16.2", where, construct, f"{len(bad[k])} of {nw} interpreted world(s): {why}" + (f" [{bad[k][0][:300]}]" if bad[k] else ""), desc=f"{construct} in all {nw} interpreted worlds")
+    ctx.check(cn_wit is None, "R16.2", where, "common name only if present and <= 64 characters", f"{cn_wit}: certificate generation fails or yields an invalid subject for long SNIs",
+              desc=f"CN only when present and short enough ({nw} interpreted worlds: None / 11 / 63 / 64 / 65 / 300 characters)")
+
+    # issued by the store's CA for exactly the requested names: CertStore.get_cert interpreted on a store without a matching entry
     gc = ctx.func(F, "CertStore.get_cert")
-    dcs = calls_in(gc, "dummy_cert")
-    ctx.require(len(dcs) == 1, "CertStore.get_cert no longer calls dummy_cert exactly once")
-    a = [norm(x) for x in dcs[0].args[:4]]
-    par = getattr(dcs[0], "_parent", None)
-    entry_call = par._parent if isinstance(par, ast.keyword) else par
-    kw = {k.arg: norm(k.value) for k in entry_call.keywords} if isinstance(entry_call, ast.Call) else {}
-    ctx.check(a == ["self.default_privatekey", "self.default_ca._cert", "commonname", "sans"] and kw.get("privatekey") == "self.default_privatekey", "R16.2", (F, "CertStore.get_cert", dcs[0]),
-              "dummy_cert(self.default_privatekey, self.default_ca._cert, commonname, sans, ...)", f"the leaf is not generated from the store's CA key/certificate for the requested names, or the entry carries another key: {a}, privatekey={kw.get('privatekey')}", desc="CertStore.get_cert issues under its default CA for (commonname, sans)")
-    ctx.expect_instances("R16.2", 11)
+    sbad = []
+    for cn, org, crl in (("leaf.example", None, None), ("leaf.example", "Leaf Org", "http://crl.example/ca.crl"), (None, None, None)):
+        it = _interp(ctx, lib)
+        store, key, ca = _store(it, lib)
+        sans = [lib.x509.DNSName("leaf.example"), lib.x509.DNSName("www.leaf.example"), _gn(lib, "2001:db8::1")]
+        ctx.cells += 1
+        try:
+            entry = _call(it, it.getattr(store, "get_cert", None, 0), [cn, list(sans), org, crl], "CertStore.get_cert")
+        except Raised as e:
+            sbad.append(f"raises {e.name} for commonname={cn!r}")
+            continue
+        if not isinstance(entry, Rec) or "cert" not in entry.__dict__:
+            raise AnalysisError("CertStore.get_cert does not return an entry with a `cert` in the interpreted model")
+        cert = _cert_of(it, entry.cert, lib, "CertStore.get_cert(...).cert")
+        attrs, exts = _facts(cert, lib)
+        san = exts.get("SubjectAlternativeName")
+        got = {"signed with": cert.signed_with, "issuer": cert.fields["issuer"], "entry.privatekey": entry.__dict__.get("privatekey"), "SANs": list(san[0].names) if san else None,
+               "CN": [v for o, v in attrs if o == "COMMON_NAME"], "O": [v for o, v in attrs if o == "ORGANIZATION_NAME"]}
+        want = {"signed with": key, "issuer": ca._cert.subject, "entry.privatekey": key, "SANs": sans, "CN": [cn] if cn else [], "O": [org] if org else []}
+        diff = [f"{k}: {got[k]!r}, expected {want[k]!r}" for k in want if got[k] != want[k]]
+        if diff:
+            sbad.append(f"commonname={cn!r}: " + "; ".join(diff))
+    ctx.check(not sbad, "R16.2", (F, "CertStore.get_cert", gc), "dummy_cert(self.default_privatekey, self.default_ca._cert, commonname, sans, ...)",
+              f"the leaf is not generated from the store's CA key/certificate for the requested names, or the entry carries another key: {sbad[:2]}", desc="CertStore.get_cert issues under its default CA for (commonname, sans)")
+    ctx.expect_instances("R16.2", 10)
 
 
-def _parents(node):
-    n = getattr(node, "_parent", None)
-    while n is not None:
-        yield n
-        n = getattr(n, "_parent", None)
+def _delta(t, now):
+    try:
+        d = (t - now).total_seconds() / 86400
+    except TypeError:
+        return " (incomparable)"
+    return f"{d:+.1f}d"
 
 
 def check(ctx):
     ctx.rule("R16.1", "every SAN of the generated certificate comes from SNI / local address / server address / option-gated upstream certificate; SNI always included; cn = first SAN")
     ctx.rule("R16.2", "dummy_cert builder obligations: issuer, serverAuth, validity window around now, SAN (critical if subject empty), AKI, serial, signed with the CA key")
-    ctx.trust("cryptography.x509 builder semantics; ipaddress.ip_address raising ValueError for non-IP strings")
-    _r16_1(ctx)
-    _r16_2(ctx)
+    ctx.trust("cryptography.x509 builder semantics (recording model); ipaddress.ip_address raising ValueError for non-IP strings; loggers have no effect on the certificate")
+    lib = _library()
+    _r16_1(ctx, lib)
+    _r16_2(ctx, lib)
 
 
 MUTANTS = [
@@ -560,6 +867,10 @@ MUTANTS = [
     Mutant("altnames-sorted", T, "        altnames = list(dict.fromkeys(altnames))\n", "        altnames = sorted(set(altnames), key=str)\n", "R16.1"),
     Mutant("ip-as-dns-name", T, "    else:\n        return x509.IPAddress(ip)\n", "    else:\n        return x509.DNSName(val)\n", "R16.1"),
     Mutant("no-idna", T, "        return x509.DNSName(val.encode(\"idna\").decode())\n", "        return x509.DNSName(val)\n", "R16.1"),
+    Mutant("upstream-names-from-last-certificate", T, "            upstream_cert: certs.Cert = conn_context.server.certificate_list[0]\n", "            upstream_cert: certs.Cert = conn_context.server.certificate_list[-1]\n", "R16.1"),
+    Mutant("sni-skipped-when-upstream-wildcard-seems-to-cover-it", T, "        if conn_context.client.sni:\n            altnames.append(_ip_or_dns_name(conn_context.client.sni))\n",
+           "        if conn_context.client.sni:\n            if not any(str(x.value).startswith(\"*.\") and conn_context.client.sni.endswith(str(x.value)[1:]) for x in altnames):\n                altnames.append(_ip_or_dns_name(conn_context.client.sni))\n", "R16.1"),
+    Mutant("client-gets-default-key-instead-of-entry-key", T, "        tls_start.ssl_conn.use_privatekey(entry.privatekey)\n", "        tls_start.ssl_conn.use_privatekey(self.certstore.default_privatekey)\n", "R16.1"),
     Mutant("issuer-is-ca-issuer", F, "    builder = builder.issuer_name(cacert.subject)\n    builder = builder.add_extension(\n        x509.ExtendedKeyUsage", "    builder = builder.issuer_name(cacert.issuer)\n    builder = builder.add_extension(\n        x509.ExtendedKeyUsage", "R16.2"),
     Mutant("eku-client-auth", F, "        x509.ExtendedKeyUsage([ExtendedKeyUsageOID.SERVER_AUTH]), critical=False\n    )\n    builder = builder.public_key(cacert.public_key())",
            "        x509.ExtendedKeyUsage([ExtendedKeyUsageOID.CLIENT_AUTH]), critical=False\n    )\n    builder = builder.public_key(cacert.public_key())", "R16.2"),
